@@ -144,7 +144,9 @@ class Kenamond3(ExactSolver):
             l_bp = np.sqrt(l_op ** 2 - self.R ** 2)
             psi = np.arccos(self.R / l_od)
             beta = np.arccos(self.R / l_op)
-            alpha = np.arccos(-np.dot(vec, self.x_d) / (l_od * l_op))
+            # rounding can take the cosine of antiparallel vectors just past 1
+            alpha = np.arccos(np.clip(-np.dot(vec, self.x_d) / (l_od * l_op),
+                                      -1.0, 1.0))
             theta = np.pi - alpha - beta - psi
             if theta > 0:
                 l_ab = self.R * theta
